@@ -261,6 +261,37 @@ theorem diffusion_minus_one_iff (c : Csr Rat) (labels : List Int) (nIter : Nat)
     · intro hn
       exact absurd h0 hn
 
+/-- ★ **diffusion_minus_one_iff, components**.  On an undirected graph (the stored pattern is symmetric)
+    DiffusionClassifier gives `-1` exactly to the nodes of the components without a seed. -/
+theorem diffusion_minus_one_iff_component (c : Csr Rat) (labels : List Int) (nIter : Nat)
+    (centering : Bool) (o : Diffusion.Out) (h : Diffusion.fit c labels nIter centering = .ok o)
+    (hsym : ∀ u v, hasEdge c u v = hasEdge c v u) (i : Nat) (hi : i < labels.length) :
+    o.labels.getD i (-1) = -1 ↔
+      ¬ ∃ s, 0 ≤ labels.getD s (-1) ∧ Spec.Conn labels.length (hasEdge c) s i := by
+  rw [diffusion_minus_one_iff c labels nIter centering o h i hi, reach_iff_component _ hsym]
+  simp
+
+/-- ★ **probability rows** (DiffusionClassifier with centring): whatever positive function stands for `np.exp`,
+    every row of `normalize(exp(scale · temperatures))` is non-negative and sums to 1; rows of unreached nodes are
+    null. -/
+theorem diffusion_soft_rows (o : Diffusion.Out) (scale : Rat) (expf : Rat → Rat) (hexp : ∀ x, 0 < expf x) :
+    ∀ row ∈ Diffusion.probsSoft o scale expf, Spec.rowOK 0 row = true := by
+  intro row hrow
+  unfold Diffusion.probsSoft at hrow
+  obtain ⟨i, _, rfl⟩ := (mem_tab _ _ _).mp hrow
+  split
+  · apply normalizeRow_rowOK
+    intro x hx
+    obtain ⟨y, _, rfl⟩ := List.mem_map.mp hx
+    exact le_of_lt (hexp _)
+  · unfold Spec.rowOK
+    simp only [Bool.and_eq_true, List.all_eq_true, decide_eq_true_eq, Bool.or_eq_true]
+    refine ⟨?_, Or.inr ?_⟩
+    · intro x hx
+      obtain ⟨_, _, rfl⟩ := List.mem_map.mp hx
+      exact le_refl 0
+    · rw [Diffusion.rsum_map_zero, rabs_zero]
+
 /-- the executable form used by the `spec` lines: `-1` iff not reached, for all nodes at once -/
 theorem diffusion_minusOneIff_spec (c : Csr Rat) (labels : List Int) (nIter : Nat)
     (centering : Bool) (o : Diffusion.Out) (h : Diffusion.fit c labels nIter centering = .ok o) :
